@@ -33,6 +33,28 @@ theorem C15_closed_stub_drains (l : Link) (i : Nat) (now : Int) (s : Stage) (c :
   have h2 : (s.intr == IntrSt.waitRet) = false := by simpa using hw
   simp [Pc.timer, h1, h2, Pc.wantsInput, Pc.running, hclosed, hctl, hin]
 
+/-- **C15 (a failed write never strands the chain).** After a write to the destination
+failed, the goroutine the sink leaves behind consumes whatever the last stub offers — so the
+last stub (and through it every stub and the source goroutine) can always make progress —
+and it ends when that output is closed. -/
+theorem C15_failed_sink_drains (l : Link) (now : Int) (hc : l.destClosed = true) (hd : l.sinkDrain = true)
+    (hw : l.wired ≠ 0) :
+    (∀ c, l.offerTo l.wired = some c → l.sinkMove now = some (l.ackUpstream l.wired now)) ∧
+    (l.offerTo l.wired = none → l.inputClosed l.wired = true →
+        l.sinkMove now = some { l with sinkDrain := false }) := by
+  have hw' : (l.wired == 0) = false := by simpa using hw
+  constructor
+  · intro c hoff
+    simp [Link.sinkMove, hc, hd, hw', hoff]
+  · intro hoff hcl
+    simp [Link.sinkMove, hc, hd, hw', hoff, hcl]
+
+/-- … and a write fails exactly into that state. -/
+theorem C15_failed_write_starts_drain (l : Link) (now : Int) (d : Toxi.Stream.Bytes) (hc : l.destClosed = false)
+    (hp : l.sinkPend = some d) (hf : l.sinkFail = true) :
+    l.sinkMove now = some { l with sinkPend := none, destClosed := true, sinkErr := true, sinkDrain := true } := by
+  simp [Link.sinkMove, hc, hp, hf]
+
 /-- **C15 (what is left behind, exactly).** The census of a proxy is zero iff it is stopped
 and for every link it ever had: the source goroutine has ended, no stub is running, and
 the sink goroutine has closed the destination. -/
@@ -40,7 +62,7 @@ theorem C15_census_zero (p : Toxi.Conn.PProxy) :
     Toxi.Conn.goroutines p = (0, 0, 0, 0) ↔
       (((Toxi.Conn.allLinks p.coll).filter fun nl => !nl.l.srcDone).length = 0 ∧
        ((Toxi.Conn.allLinks p.coll).map fun nl => (nl.l.stages.filter fun s => s.pc.running).length).foldl (· + ·) 0 = 0 ∧
-       ((Toxi.Conn.allLinks p.coll).filter fun nl => !nl.l.destClosed).length = 0 ∧ p.enabled = false) := by
+       ((Toxi.Conn.allLinks p.coll).filter fun nl => !nl.l.destClosed || nl.l.sinkDrain).length = 0 ∧ p.enabled = false) := by
   unfold Toxi.Conn.goroutines
   simp only [Prod.mk.injEq]
   constructor
